@@ -463,7 +463,11 @@ impl<'a> UserModel<'a> {
         let style = self.model.get_style_for_cell(sheet, row, column)?;
 
         let line_count = value.split('\n').count() as f64;
-        let row_height = self.model.get_row_height(sheet, row)?;
+        let row_height = self
+            .model
+            .workbook
+            .worksheet(sheet)?
+            .get_actual_row_height(row)?;
         // This is in sync with the front-end auto fit row
         let font_size = style.font.sz as f64;
         let line_height = font_size * 1.5;
@@ -1350,7 +1354,12 @@ impl<'a> UserModel<'a> {
     ) -> Result<(), String> {
         let mut diff_list = Vec::new();
         for column in column_start..=column_end {
-            let old_value = self.model.get_column_width(sheet, column)?;
+            // the stored width: the visible width of a hidden column is 0
+            let old_value = self
+                .model
+                .workbook
+                .worksheet(sheet)?
+                .get_actual_column_width(column)?;
             diff_list.push(Diff::SetColumnWidth {
                 sheet,
                 column,
@@ -1499,7 +1508,12 @@ impl<'a> UserModel<'a> {
     ) -> Result<(), String> {
         let mut diff_list = Vec::new();
         for row in row_start..=row_end {
-            let old_value = self.model.get_row_height(sheet, row)?;
+            // the stored height: the visible height of a hidden row is 0
+            let old_value = self
+                .model
+                .workbook
+                .worksheet(sheet)?
+                .get_actual_row_height(row)?;
             diff_list.push(Diff::SetRowHeight {
                 sheet,
                 row,
